@@ -54,8 +54,21 @@ def signature(ctx, block, diff):
             rules.update(s.get("rules", []))
     except Exception:
         rules.add("<spec-raised>")
+    rules = {norm_rule(r) for r in rules}
     ops = sorted({op for op, _ in block if not (op.startswith("DUP") or op.startswith("SWAP") or op in ("POP", "PUSH"))})
     return "rules=[%s];ops=[%s]" % (",".join(sorted(rules)), ",".join(ops))
+
+
+def norm_rule(r):
+    """Rule names as call sites: constant-folding reports carry their operands, keep only the operator."""
+    import re
+    m = re.match(r"EVAL \[?\(?.*?'([^']*)'\)?\]?$", r)
+    if r.startswith("EVAL "):
+        parts = re.findall(r"'([^']*)'", r)
+        return "EVAL[%s]" % (parts[-1] if parts else "?")
+    if r.startswith("EVAL("):
+        return "EVAL(ISZERO)"
+    return r
 
 
 def unit_sets(tier, seed):
@@ -66,8 +79,9 @@ def unit_sets(tier, seed):
         yield "tree(CORE,3)", B.tree(B.CORE, 3), c1
         yield "tree(CORE,4)@default", B.tree(B.CORE, 4, min_len=4), [("-greedy",)]
         yield "tree(MIXED,3)", B.tree(B.MIXED, 3), c1
-        yield "rule-families", families.rule_family(level=1), c1
-        yield "mem-families", families.mem_family(k=2), c1
+        yield "rule-families", families.rule_family(level=1), [("-greedy",)]
+        yield "mem-families", families.mem_family(k=2), [("-greedy",), ("-storage", "-greedy"),
+                                                         ("-partition", "-greedy"), ("-no-simplification", "-greedy")]
     else:
         yield "tree(CORE,4)", B.tree(B.CORE, 4), c1
         yield "tree(CORE,2)@all", B.tree(B.CORE, 2), configs.all_configs()
